@@ -80,6 +80,7 @@ def claim_all(e, label, acc):
         ok = True
         for n_, a, b in acc:
             ok = e.claim_eq(n_, a, b) and ok
+        e.claim(label, ok)  # the conjunction under its own label (confirms a symbolic counterexample of it)
         return ok
     conds = [(n_, sym_eq(a, b)) for n_, a, b in acc]
     if e.claim(label, _and([c for _, c in conds])):
@@ -105,6 +106,21 @@ def inspect_all(e, c, q, qa, items, names, tag, symbolic_memory=True):
     claim_all(e, "%s:pure" % tag, acc)
     shared_tables_untouched(e, tag)
     return S1
+
+
+def compare_with_uninspected(e, c, u, names, tag, q=None, qa=None, items=None, symbolic_memory=True):
+    """every inspection result (and the state) of the inspected run equals that of the twin run
+    on which no inspection function was ever called before"""
+    acc = []
+    for name in names:
+        if symbolic_memory and name in SKIP_WITH_SYMBOLIC_MEMORY:
+            continue
+        acc.append(("%s:inspected-run==uninspected-run:%s" % (tag, name), call(c.sim, name), call(u.sim, name)))
+    if items is not None:
+        SI, SU = riscv_snapshot(c, q, qa, items), riscv_snapshot(u, q, qa, items)
+        for k in SI:
+            acc.append(("%s:inspected-run==uninspected-run:state:%s" % (tag, k), SI[k], SU[k]))
+    claim_all(e, "%s:inspected-run==uninspected-run" % tag, acc)
 
 
 def shared_tables_untouched(e, tag):
@@ -142,6 +158,10 @@ def h_inspect(e, mnems, mode, cfg=None, stride=3):
     dc, ic = mk_caches(cfg)
     c = mk_riscv(e, mode=mode, dcache=dc, icache=ic)
     place_instructions(e, c, items)
+    # the same run without any inspection call (same symbolic initial state), stepped in lock-step
+    dc2, ic2 = mk_caches(cfg)
+    u = mk_riscv(e, mode=mode, dcache=dc2, icache=ic2)
+    place_instructions(e, u, items)
     # the register table formats all 32 registers and branches on the sign of each: keep the
     # initial values non-negative as 32-bit signed numbers (the formatter itself is C17's subject)
     for i in range(1, 32):
@@ -160,10 +180,16 @@ def h_inspect(e, mnems, mode, cfg=None, stride=3):
             c.sim.step()
         except InstructionExecutionException:
             break
+        finally:
+            try:
+                u.sim.step()
+            except InstructionExecutionException:
+                pass
         n += 1
         if n == 1 or n % stride == 0:
             inspect_all(e, c, q, qa, items, names, "s%d" % n)
     inspect_all(e, c, q, qa, items, names, "final")
+    compare_with_uninspected(e, c, u, names, "final", q, qa, items)
     e.observe("steps", n)
     e.observe("pc", c.sim.state.program_counter)
     e.claim("canary:pure", c.sim.state.performance_metrics.cycles == -1)
@@ -176,9 +202,14 @@ def h_inspect_small(e, mnems, mode, cfg=None):
     from architecture_simulator.simulation.runtime_errors import InstructionExecutionException
 
     items, fields = progs.build_program(e, mnems)
-    dc, ic = mk_caches(cfg)
-    c = mk_riscv(e, mode=mode, dcache=dc, icache=ic, mem="empty")
-    place_instructions(e, c, items)
+
+    def build():
+        dc, ic = mk_caches(cfg)
+        c_ = mk_riscv(e, mode=mode, dcache=dc, icache=ic, mem="empty")
+        place_instructions(e, c_, items)
+        return c_
+
+    c = build()
     reg0 = c.regs0.get
     for i in range(1, 32):
         e.assume(cond("<", c.regs0.get(i), 2**31))
@@ -199,9 +230,11 @@ def h_inspect_small(e, mnems, mode, cfg=None):
 
     from checks.snap import cache_snapshot
 
-    def memsnap():
-        d = {"mem": {k: val(v) for k, v in sorted(lower.memory_file.items())}, "keys": list(lower.memory_file.keys())}
-        st_ = c.sim.state
+    def memsnap(c_=None):
+        c_ = c_ or c
+        lower_ = c_.lower_mem()
+        d = {"mem": {k: val(v) for k, v in sorted(lower_.memory_file.items())}, "keys": list(lower_.memory_file.keys())}
+        st_ = c_.sim.state
         if hasattr(st_.memory, "cache"):
             d["dcache"] = cache_snapshot(st_.memory)
         if hasattr(st_.instruction_memory, "cache"):
@@ -219,16 +252,30 @@ def h_inspect_small(e, mnems, mode, cfg=None):
         except InstructionExecutionException:
             break
         n += 1
-        if n == 1 or c.sim.is_done():
+        if True:
             M0 = memsnap()
             acc = []
+            res = {}
             for name in names:
                 r1 = call(c.sim, name)
                 r2 = call(c.sim, name)
+                res[name] = r2
                 acc.append(("s%d:repeatable:%s" % (n, name), r2, r1))
             M1 = memsnap()
             for k_ in M0:
                 acc.append(("s%d:state-unchanged:%s" % (n, k_), M1[k_], M0[k_]))
+            # a fresh twin stepped n times without any inspection call: same results, same state
+            u = build()
+            for _ in range(n):
+                try:
+                    u.sim.step()
+                except InstructionExecutionException:
+                    break
+            MU = memsnap(u)
+            for name in names:
+                acc.append(("s%d:inspected-run==uninspected-run:%s" % (n, name), res[name], call(u.sim, name)))
+            for k_ in M1:
+                acc.append(("s%d:inspected-run==uninspected-run:state:%s" % (n, k_), M1[k_], MU[k_]))
             claim_all(e, "s%d:pure" % n, acc)
             shared_tables_untouched(e, "s%d" % n)
     rows = c.sim.get_data_memory_entries()
@@ -243,6 +290,7 @@ def h_inspect_toy(e, steps=2):
 
     inp = ToyInputs(e)
     a, sa = mk_toy(e, inp)
+    u, su = mk_toy(e, inp)  # never inspected before the end
     q = e.int("q", 0, 4095)
     names = [n for n in getters(a) if n != "get_memory_table_entries"]
     e.claim("getter-discovery", "get_register_representations" in names and "get_toy_svg_update_values" in names, {"names": names})
@@ -259,6 +307,12 @@ def h_inspect_toy(e, steps=2):
         if a.is_done():
             break
         a.single_step()
+        u.single_step()
+    for name in names:
+        e.claim_eq("final:inspected-run==uninspected-run:%s" % name, call(a, name), call(u, name))
+    SA, SU = toy_snapshot(e, a, sa, q, False), toy_snapshot(e, u, su, q, False)
+    for k in SA:
+        e.claim_eq("final:inspected-run==uninspected-run:state:%s" % k, SA[k], SU[k])
     e.observe("accu", a.state.accu)
     e.claim("canary:pure", a.next_cycle == 7)
 
@@ -270,6 +324,7 @@ def h_inspect_toy_table(e, opcode):
 
     inp = ToyInputs(e, mem_size=2, ir_opcode=opcode)
     a, sa = mk_toy(e, inp)
+    u, su = mk_toy(e, inp)  # never inspected before the end
     names = getters(a)
     for n in range(3):
         S0 = toy_snapshot(e, a, sa, 0, True)
@@ -286,7 +341,11 @@ def h_inspect_toy_table(e, opcode):
         try:
             a.single_step()
         except Exception:  # address outside the small memory
-            break
+            e.observe("accu", a.state.accu)
+            return "address outside the small memory"
+        u.single_step()
+    for name in names:
+        e.claim_eq("final:inspected-run==uninspected-run:%s" % name, call(a, name), call(u, name))
     e.observe("accu", a.state.accu)
     e.claim("canary:pure", a.next_cycle == 7)
 
